@@ -8,5 +8,12 @@ OBLIGATIONS = [
          functions=["as.c:ProcessFile"], bounds="3 source lines, each statement leaving arbitrary annotation / code length / reservation flag behind",
          assumes=["line reader, splitter, statement execution and MakeList replaced by stubs/recorders (MakeList clears nothing, as under a suppressed listing)"]),
 ]
+# line numbers are what the listing and the MAP/NoICE/Atmel line records key on: the INCLUDE line-counter kernel of C20 is part of C19 too
+import importlib.util, os
+_p = os.path.join(os.path.dirname(__file__), "..", "C20", "spec.py")
+_sp = importlib.util.spec_from_file_location("specC20", _p); _m20 = importlib.util.module_from_spec(_sp); _sp.loader.exec_module(_m20)
+for _o in _m20.OBLIGATIONS:
+    if _o["name"] == "include_linecounter":
+        OBLIGATIONS.append(dict(_o, src="../C20/" + _o["src"]))
 META = dict(outside=["symbol table of the listing / MAP / share file (tree walk + number formatting)", "MAP line entries, NoICE/Atmel formats (pending)", "list radix other than 16"],
             assumptions=["malloc never fails"])
